@@ -7,7 +7,8 @@ CLAIMED = {
                   "IndexError exactly when none), in scaled coordinates with numpy's isclose band as a don't-care zone, plus SMT lemmas "
                   "linking scaled coordinates to sample positions.",
              note="Trusted: floats as reals; numpy isclose/round/floor/where/searchsorted specs; ticks/labels getters summarised "
-                  "(verified under C05); z3/cvc5; pyvc encoding.", ref="7 C07"),
+                  "(verified under C05); z3/cvc5; pyvc encoding. SampledDimension.axis is not under contract: bounded battery "
+                  "C07/bounded/c07 (axes, round trips, conversions and index ranges against the order-theoretic definition).", ref="7 C07"),
  "C09": dict(text="Deductive proof of scalable/scaling against the prefix-ratio^power specification (all inputs), exhaustive proof of "
                   "split/is_atomic on every prefix x unit x power entry of the SI tables read from the AST, regex-inclusion and "
                   "composition lemmas; sanitizer idempotence only as a labelled bounded stand-in.",
